@@ -323,7 +323,7 @@ func (p *Properties) Encode(pkt byte, mods Mods, b *bytes.Buffer, n int) {
 		buf.WriteByte(p.RetainAvailable)
 	}
 
-	if !mods.DisallowProblemInfo && p.canEncode(pkt, PropUser) {
+	if (!mods.DisallowProblemInfo || pkt == Publish) && p.canEncode(pkt, PropUser) { // user properties of a PUBLISH are application data, not problem information [MQTT-3.1.2-29]
 		pb := mempool.GetBuffer()
 		defer mempool.PutBuffer(pb)
 		for _, v := range p.User {
